@@ -125,6 +125,10 @@ func (evkg EvaluationKeyGenProtocol) GenShare(skIn, skOut *rlwe.SecretKey, crp E
 		return fmt.Errorf("cannot GenShare: min(skIn, skOut) LevelP != shareOut LevelP")
 	}
 
+	if crp.LevelQ() != levelQ || crp.LevelP() != levelP {
+		return fmt.Errorf("cannot GenShare: crp levels (%d,%d) != shareOut levels (%d,%d)", crp.LevelQ(), crp.LevelP(), levelQ, levelP)
+	}
+
 	if shareOut.BaseRNSDecompositionVectorSize() != crp.BaseRNSDecompositionVectorSize() {
 		return fmt.Errorf("cannot GenShare: crp.BaseRNSDecompositionVectorSize() != shareOut.BaseRNSDecompositionVectorSize()")
 	}
